@@ -551,6 +551,47 @@ Proof.
   split; [exact ex_g2_diag|]. split; [exact ex_solve_basic|exact ex_no_badrun].
 Qed.
 
+(* ---- partial pivoting keeps the computed multipliers small: |l_ik| <= 1 + u, hence (|L^||U^|)_ic <= (1+u) Sum_k |u_kc| ----
+   (needs the standard-model hypothesis for the division only; the pivot search compares exactly).  With it the bound of
+   solve_lu_backward_error reads in terms of U^ alone; how large U^ is compared with A is the growth factor: not estimated. *)
+From OV Require Import Proofs.RoundLUMult.
+
+Theorem lu_multipliers_bounded : forall (u : R), (0 <= u < 1)%R ->
+  forall (fadd fsub fmul fdiv : R -> R -> R),
+  (forall x y : R, y <> 0%R -> exists d : R, (Rabs d <= u)%R /\ fdiv x y = (x / y * (1 + d))%R) ->
+  forall (m lu perm : matrix (ARm fadd fsub fmul fdiv)) (piv : nat),
+  Proofs.Matrix.wf m -> lu_decomp m = Ok (lu, piv, perm) ->
+  (forall k, (k < rows m)%nat -> rentry fadd fsub fmul fdiv lu k k <> 0%R) ->
+  (forall i k, (k < i)%nat -> (i < rows m)%nat -> (Rabs (rentry fadd fsub fmul fdiv lu i k) <= 1 + u)%R) /\
+  (forall i c, (i < rows m)%nat -> (c < rows m)%nat ->
+     (Rsum (rows m) (fun k => Rabs (tril1 fadd fsub fmul fdiv lu i k) * Rabs (triu fadd fsub fmul fdiv lu k c))
+      <= (1 + u) * Rsum (rows m) (fun k => Rabs (triu fadd fsub fmul fdiv lu k c)))%R).
+Proof.
+  intros u Hu fadd fsub fmul fdiv Hd m lu perm piv W E Dg. split.
+  - exact (lu_multipliers_bounded_lemma u Hu fadd fsub fmul fdiv Hd m lu perm piv W E Dg).
+  - exact (lu_abs_product_bound_lemma u Hu fadd fsub fmul fdiv Hd m lu perm piv W E Dg).
+Qed.
+Check lu_multipliers_bounded : forall (u : R), (0 <= u < 1)%R ->
+  forall (fadd fsub fmul fdiv : R -> R -> R),
+  (forall x y : R, y <> 0%R -> exists d : R, (Rabs d <= u)%R /\ fdiv x y = (x / y * (1 + d))%R) ->
+  forall (m lu perm : matrix (ARm fadd fsub fmul fdiv)) (piv : nat),
+  Proofs.Matrix.wf m -> lu_decomp m = Ok (lu, piv, perm) ->
+  (forall k, (k < rows m)%nat -> rentry fadd fsub fmul fdiv lu k k <> 0%R) ->
+  (forall i k, (k < i)%nat -> (i < rows m)%nat -> (Rabs (rentry fadd fsub fmul fdiv lu i k) <= 1 + u)%R) /\
+  (forall i c, (i < rows m)%nat -> (c < rows m)%nat ->
+     (Rsum (rows m) (fun k => Rabs (tril1 fadd fsub fmul fdiv lu i k) * Rabs (triu fadd fsub fmul fdiv lu k c))
+      <= (1 + u) * Rsum (rows m) (fun k => Rabs (triu fadd fsub fmul fdiv lu k c)))%R).
+Print Assumptions lu_multipliers_bounded.
+Example lu_multipliers_bounded_nonvacuous :   (* the factors of [[2,1],[0,3]] in the rounding arithmetic; row 1 has a multiplier *)
+  (0 <= ux < 1)%R /\
+  (forall x y : R, y <> 0%R -> exists d : R, (Rabs d <= ux)%R /\ xdiv x y = (x / y * (1 + d))%R) /\
+  Proofs.Matrix.wf ex_m2 /\ lu_decomp ex_m2 = Ok (ex_lu2, 0%nat, ex_id2) /\
+  (forall k, (k < rows ex_m2)%nat -> rentry xadd xsub xmul xdiv ex_lu2 k k <> 0%R) /\ (0 < 1 < rows ex_m2)%nat.
+Proof.
+  split; [exact ux_range|]. split; [exact xdiv_ok|]. split; [reflexivity|]. split; [exact ex_lu_decomp|].
+  split; [exact ex_lu2_diag|cbn; lia].
+Qed.
+
 (* ---------- Props/pending/C02_round.v.txt ---------- *)
 (* ======================================================================================================
    C02 (determinant and inverse), rounding half -- package round.  Append to Props/C02.v.
